@@ -1569,3 +1569,14 @@ def src_of(n):
 
 
 MODFUNCS['re.sub'] = m_re_sub
+
+
+# ---- injective encoding of a tuple of scalars as one string key (dicts keyed by tuples): inverse functions as axioms ------------
+def tuple_key(st, name, parts):
+    """parts: list of z3 terms (Bool / Int / String).  Returns a String term k = name(parts...) with projections name$i(k) == parts[i],
+    which makes the encoding injective (library modelling of Python's tuple hashing/equality: equal keys <=> equal components)."""
+    f = z3.Function(name, *([p.sort() for p in parts] + [z3.StringSort()]))
+    k = f(*parts)
+    for i, p in enumerate(parts):
+        st.assume(z3.Function('%s$%d' % (name, i), z3.StringSort(), p.sort())(k) == p)
+    return k
